@@ -23,9 +23,9 @@ if [ "${SKIP_CONFIRM:-}" = "" ]; then
   echo "--- demo with the change (packages: $PK) ${DEMO_FLAGS:-}"
   (cd $M && go test -vet=off -count=1 ${DEMO_FLAGS:-} -run "${DEMO_RUN:-Seeded|Demo|seeded}" $PK 2>&1 | tail -8)
   echo "--- demo without the change"
-  git stash push -q -- $(git diff --name-only -- . ':(exclude)*_test.go')
+  git apply -R $D/patch.diff
   (cd $M && go test -vet=off -count=1 ${DEMO_FLAGS:-} -run "${DEMO_RUN:-Seeded|Demo|seeded}" $PK 2>&1 | tail -4)
-  git stash pop -q
+  git apply $D/patch.diff
 fi
 cd /verif
 for P in "$@"; do
